@@ -315,6 +315,9 @@ func renameTree(n *vfs.Node, al [2]string) *vfs.Node {
 }
 
 func variant(s *vfs.Node, r vfs.Req, k int) (*vfs.Node, vfs.Req) {
+	if r.Body != "" && k%2 == 0 {
+		r.Chunked = true // the variants of requests with a body also come without a declared length
+	}
 	slash := func(p string) string {
 		if strings.HasPrefix(p, "/") && !strings.HasSuffix(p, "/") {
 			return p + "/"
